@@ -287,7 +287,32 @@ func (c *converter) syncPartial() {
 // here and removed before parse the added ingress which will readd such hosts
 // and backs
 func (c *converter) trackAddedIngress() {
-	for _, ing := range append(c.changed.IngressesAdd, c.changed.IngressesUpd...) {
+	c.trackIngress(append(c.changed.IngressesAdd, c.changed.IngressesUpd...))
+	// An ingress that will be synchronized again just because it shares a
+	// host or a backend with a changed resource has the same problem: it might
+	// start to reference a host or a backend that already exists, e.g. when the
+	// former owner of one of its paths was removed. Track them as well, until
+	// the list of ingress to be synchronized stops to increase.
+	tracked := map[string]bool{}
+	for {
+		var ingList []*networking.Ingress
+		for _, name := range c.tracker.QueryLinks(c.changed.Links, false)[convtypes.ResourceIngress] {
+			if !tracked[name] {
+				tracked[name] = true
+				if ing, err := c.cache.GetIngress(name); err == nil {
+					ingList = append(ingList, ing)
+				}
+			}
+		}
+		if len(ingList) == 0 {
+			break
+		}
+		c.trackIngress(ingList)
+	}
+}
+
+func (c *converter) trackIngress(ingList []*networking.Ingress) {
+	for _, ing := range ingList {
 		name := ing.Namespace + "/" + ing.Name
 		if ing.Spec.DefaultBackend != nil {
 			backend := c.findBackend(ing.Namespace, ing.Spec.DefaultBackend)
